@@ -66,10 +66,14 @@ func setupFixtures() {
 		regCert("n.nohw", k2, `{"prins":["alice"],"transID":"b5","reqUser":"alice","reqIP":"1.2.3.4","reqHost":"h","isFirefighter":false,"isHeadless":false,"isNonce":false,"usage":0,"touchPolicy":1,"ver":1}`, t-h, t+h, nil)
 		regCert("n.free", k2, "free text", t-h, t+h, nil)
 		regCert("n.empty", k2, "", t-h, t+h, nil)
+		// YSSHCA-issued certificates over the legacy and the security-key families (certificate algorithm names differ)
+		adsa := regKey("a.dsa.key", fix.DSA())
+		regCert("y.dsa", adsa, ysshcaKeyID(false, true, false, false, 3, "a00000000e"), t-h, t+h, nil)
+		regCert("y.sk", regSignerKey("y.sk.key", fix.SK(2)), ysshcaKeyID(false, true, false, false, 1, "a00000000f"), t-h, t+h, nil)
 		// one key and three certificates (expired, current, not yet valid) per key family, incl. the legacy and the
 		// security-key types (certificate algorithm names differ per family)
 		for fam, key := range map[string]*ident{"rsa": regKey("a.rsa.key", fix.RSA(1024)), "p384": regKey("a.p384.key", fix.EC(384)),
-			"p521": regKey("a.p521.key", fix.EC(521)), "ed25519": regKey("a.ed25519.key", fix.Ed(3)), "dsa": regKey("a.dsa.key", fix.DSA()), "sk": regSignerKey("a.sk.key", fix.SK(4))} {
+			"p521": regKey("a.p521.key", fix.EC(521)), "ed25519": regKey("a.ed25519.key", fix.Ed(3)), "dsa": adsa, "sk": regSignerKey("a.sk.key", fix.SK(4))} {
 			regCert("a."+fam+".past", key, plain+" "+fam+" past", t-2*h, t-h, nil)
 			regCert("a."+fam+".cur", key, plain+" "+fam+" cur", t-h, t+h, nil)
 			regCert("a."+fam+".future", key, plain+" "+fam+" future", t+h/2, t+2*h, nil)
